@@ -17,8 +17,10 @@ RULE = (
     'run_info.parameters = the frozen representation of EVERY declared parameter; run_info.input_tasks = {relative '
     'input name: key}; run_info.config belongs to a declaring config instance; run_info.log = exactly that run\'s '
     'records in order; task.log holds exactly that run\'s tagged messages in order, nothing tagged with another run or '
-    'task, and no other line than the library\'s own "run started" / "run ended". Nothing is asserted after a failed run '
-    'until the next success. Non-trivial = a failure followed by a retry of the same location in the same process, or '
+    'task, and no other line than the library\'s own "run started" / "run ended". After a failed attempt over a stored '
+    'result (run raises / is interrupted / returns a mistyped or unserialisable value / its generator body raises) the '
+    'run info must still be that of the run that produced the stored result; nothing is asserted about the LOG until '
+    'the next success (the attempt opened it). Non-trivial = a failure followed by a retry of the same location in the same process, or '
     'a forced recomputation over an existing result, with >= 2 tasks logging.'
 )
 ASSUMPTIONS = [
@@ -82,8 +84,14 @@ def check_records(sm, proc, chains_records, info):
                     str(cfg.get('name', '')).startswith(sh.inst.config_name + '/') for sh in sharing):
                 raise Violation('records:config', dict(inf, got=cfg, want=[(sh.inst.config_name, sh.ns) for sh in sharing]))
             want_log = records.records(seq)
+            if t.kind in ('generator', 'lazy'):
+                want_log = want_log + [records.generator_record(seq)]   # added while the generated result was consumed
             if ri.get('log') != want_log:
                 raise Violation('records:run-info-log', dict(inf, got=ri.get('log'), want=want_log))
+            if not lr.get('log_valid', True):
+                # a later attempt on this location failed: it opened the log, nothing is asserted about the log then
+                checked += 1
+                continue
             # the log file
             want_msgs = records.messages(seq, slug)
             if t.kind in ('generator', 'lazy'):
